@@ -394,7 +394,8 @@ def run(ctx):
         stats['per_scenario'][cfg[0]] = stats['per_scenario'].get(cfg[0], 0) + 1
         stats['nprocs'][str(cfg[1])] = stats['nprocs'].get(str(cfg[1]), 0) + 1
         hit = [io for io in lf['io'] if io['hit']]
-        if not hit or hit[0]['addrs'] != p['addrs'] or hit[0]['idx'] != f['index']:
+        n_own = len(p['stack']) + 1           # frames inside the binary (library + harness caller); libc frames move (ASLR)
+        if not hit or hit[0]['addrs'][:n_own] != p['addrs'][:n_own] or hit[0]['idx'] != f['index']:
             stats['not_injected'] += 1
             corr_fail.append(('corr_C11_census_stable: the faulted run did not reach call %d of rank %d with the '
                               'census stack' % (f['index'], f['rank']), case, r))
